@@ -30,6 +30,12 @@ def main():
         if os.path.exists(os.path.join(d, "demo.sh")):
             t0 = time.time()
             rc, out = sh(["bash", os.path.join(d, "demo.sh")], cwd=d, timeout=900)
+            if not (rc == 0 and "DEMONSTRATED:" in out) and res.get("applies"):
+                # some demonstrations expect a worktree that already has the patch: hand them the patched scratch worktree
+                subprocess.call(["rm", "-rf", wt + "/_b"])
+                env = dict(os.environ, WT=wt)
+                p = subprocess.run(["bash", os.path.join(d, "demo.sh"), wt], cwd=d, stdout=subprocess.PIPE, stderr=subprocess.STDOUT, timeout=900, env=env)
+                rc, out = p.returncode, p.stdout.decode("utf-8", "replace")
             res["demo_exit"] = rc
             res["demonstrated"] = rc == 0 and any(l.startswith("DEMONSTRATED:") for l in out.split("\n"))
             res["demo_line"] = next((l for l in out.split("\n") if l.startswith("DEMONSTRATED:")), out[-300:])[:400]
